@@ -72,14 +72,14 @@ PROPS = {
         "assumptions": ["informer caches are monotone per kind", "nobody but the controllers deletes run objects", "algorithm service returns fresh names"],
     },
     "C06": {
-        "prop_files": ['Katib/Props/C06.lean'],
+        "prop_files": ['Katib/Props/C06.lean', 'Katib/Props/C06World.lean'],
         "streams": [('SIM', {'quick': 240, 'thorough': 8000})],
         "rule": "seeded random schedules of the three real reconcilers on the fake client (1-2 experiments, optionally equally named in two namespaces; maxTrialCount 1-4/unset, parallel 1-3, maxFailed, goal, three resume policies, early stopping, retain, push collector), ops = reconciles with per-kind monotone lagging views, write-fault masks, abort points, algorithm reply faults (short/long/error, rules RPC error), job outcomes, metric arrival, early stop, deployment ready; then fault-free settling to quiescence, a quiescence probe, optionally a budget raise and a second settling; every op's write log and the whole store are compared with the Lean model; a case = one schedule; distinct = distinct op sequence",
         "trusted": ["controller-runtime fake client stands in for the kube-apiserver (rv conflicts, status subresource, AlreadyExists)",
                     "fake algorithm / early-stopping / DB-manager services", "typed reads inside a reconcile come from a snapshot (informer cache), run objects are read live"],
         "modelled": ["ReconcileExperiment.Reconcile / ReconcileSuggestion.Reconcile / ReconcileTrial.Reconcile and helpers as Katib.Ctl.expPlan / sugPlan / trialPlan",
                      "API-server semantics as Katib.Ctl.applyCall", "the op/step state machine Katib.Ctl.step"],
-        "level_text": 'trial verdict theorems about the trial reconciler model; correspondence + oracle on generated schedules',
+        "level_text": 'C06_permanent: over every list of simulator operations (no hypothesis on the schedule: arbitrary lagging reads, fault masks, abort points, environment events) a trial never disappears, every condition other than Running that was True in any earlier snapshot is True now (terminal verdicts are permanent) and no trial is both Succeeded and EarlyStopped (invariants TInv/KInv + history relation TPast); C06_verdict_guard: every status write of every reconcile obeys the verdict rules (Succeeded needs job success and an objective value and excludes other verdicts; failure first; MetricsUnavailable only without objective value); correspondence + oracle on generated schedules',
         "level_note": "trusted: Lean kernel; harness/check; fake client as API server; views monotone per kind; the tie between Lean model and Go controllers is differential (sampling)",
         "assumptions": ["informer caches are monotone per kind", "nobody but the controllers deletes run objects", "algorithm service returns fresh names"],
     },
